@@ -347,6 +347,9 @@ abbrev NodeOp := Node → M (Ret × Node)
 
 def skip : NodeOp := fun n => pure (OK, n)
 
+/-- an early `return <error>;` that touches nothing -/
+def failOp (r : Ret) : NodeOp := fun n => pure (r, n)
+
 /-- run `a`; continue with `b` only if `a` returned `LZMA_OK` (`return_if_error`) -/
 def seq (a b : NodeOp) : NodeOp := fun n => do
   let r ← a n
@@ -560,6 +563,7 @@ def D_HASH_COUNT := 1
 def D_SONS_COUNT := 2
 def D_SEQ := 0         -- stream encoder: sequence
 def D_BLOCK_INIT := 1  -- stream encoder: block_encoder_is_initialized
+def D_DIRTY := 2       -- stream encoder: the LZMA2 encoder of the open Block has left SEQ_INIT (data since the last flush)
 
 /-- `lzma_lz_decoder_init`'s dictionary size: at least 4096, rounded up to 16, plus 2*LZ_DICT_REPEAT_MAX -/
 def dictAllocSize (dict : Nat) : Nat :=
@@ -605,13 +609,16 @@ def filterInit (enc : Bool) : Filter → NodeOp → NodeOp
     let um := if w == 0 then 5 else if w == 2 then 16 else if w == 7 then 8 else 4
     allocSelf (S.simple + 2 * um) (if w == 0 then reallocBuf B_SIMPLE (some S.simpleX86) else skip)
       ⨟ onSub0 rest
-  | .lzma v2 dict mf nice _, rest =>
+  | .lzma v2 dict mf nice mode, rest =>
     if enc then
       let (size, hc, sons) := mfSizes S v2 dict mf nice
       allocSelf S.lzEnc skip
       -- lz_init: lzma2_encoder_init allocates its struct, then lzma_lzma_encoder_create
       ⨟ (if v2 then ensureBuf B_ENC_LZMA2 (some S.lzma2Enc) else skip)
       ⨟ ensureBuf B_ENC_LZMA1 (some S.lzma1Enc)
+      -- lzma_lzma_encoder_create: `switch (options->mode) { ... default: return LZMA_OPTIONS_ERROR; }` comes
+      -- right after the allocation of lzma_lzma1_encoder (mode: 1 = FAST, 2 = NORMAL)
+      ⨟ (if mode == 1 || mode == 2 then skip else failOp OPTIONS_ERROR)
       -- lz_encoder_prepare: drop buffers whose size changed
       ⨟ whenD (fun n => (n.buf B_BUFFER).isSome && n.dat D_MF_SIZE != size) (freeBuf B_BUFFER)
       ⨟ setData D_MF_SIZE size
@@ -656,19 +663,33 @@ def SEQ_BLOCK_INIT := 1
 def SEQ_BLOCK_ENCODE := 3
 def SEQ_INDEX := 4
 
-/-- `stream_encoder_update` -/
-def streamEncoderUpdate (c : Chain) : NodeOp :=
+/-- `lzma_raw_encoder_memusage(filters) != UINT64_MAX` as far as the modelled options go (LZMA mode) -/
+def chainValid (c : Chain) : Bool :=
+  c.all fun f => match f with | .lzma _ _ _ _ m => m == 1 || m == 2 | _ => true
+
+def filterId : Filter → Nat
+  | .lzma false .. => 1
+  | .lzma true .. => 2
+  | .delta _ => 3
+  | .bcj w _ => 4 + w
+
+/-- `stream_encoder_update`; `cur` = the chain the encoder currently uses. The new chain is copied to a temporary
+    array first; on EVERY error path (`goto error`) the copy is freed again. In the middle of a Block only the
+    filter-specific options can change: `block_encoder.update` refuses (LZMA_PROG_ERROR) a different sequence of
+    Filter IDs, and the LZMA2 encoder refuses any update unless it is at a chunk boundary (`SEQ_INIT`, i.e. no
+    input since the last flush). -/
+def streamEncoderUpdate (cur c : Chain) : NodeOp :=
   replaceOpts (c.map (optSizeCopy S)) (fun n =>
     if n.dat D_SEQ ≤ SEQ_BLOCK_INIT then
       (setData D_BLOCK_INIT 0 ⨟ onSub0 (blockEncoderInit S c) ⨟ setData D_BLOCK_INIT 1) n
     else if n.dat D_SEQ ≤ SEQ_BLOCK_ENCODE then
-      pure (OK, n)       -- only filter-specific options are updated: nothing is allocated
+      (if n.dat D_DIRTY != 0 || cur.map filterId != c.map filterId then failOp PROG_ERROR else skip) n
     else
       pure (PROG_ERROR, n))
 
 def streamEncoderInit (c : Chain) : NodeOp :=
   guard I_SENC ⨟ allocSelf S.streamEnc skip ⨟ setData D_SEQ SEQ_HEADER
-    ⨟ ixReinit0 S ⨟ streamEncoderUpdate S c
+    ⨟ ixReinit0 S ⨟ streamEncoderUpdate S c c
 
 /-- the part of `stream_encode` that allocates, for one harness step (`lzma_code` looped until the input
     is consumed / the action is done). `act`: 0 RUN, 1 SYNC_FLUSH, 2 FULL_FLUSH, 3 FINISH. -/
@@ -680,13 +701,16 @@ def streamEncode (c : Chain) (act len : Nat) : NodeOp := fun n =>
       whenD (fun n => n.dat D_BLOCK_INIT == 0) (onSub0 (blockEncoderInit S c))
         ⨟ setData D_BLOCK_INIT 0 ⨟ setData D_SEQ SEQ_BLOCK_ENCODE
     else setData D_SEQ seq0
+  -- (1b) input with LZMA_RUN leaves the LZMA2 encoder inside a chunk; every flush brings it back to SEQ_INIT
+  let dirty : NodeOp :=
+    whenD (fun n => n.dat D_SEQ == SEQ_BLOCK_ENCODE) (setData D_DIRTY (if act == 0 then (if len > 0 then 1 else n.dat D_DIRTY) else 0))
   -- (2) FULL_FLUSH / FINISH close an open Block: one Index Record
   let closeBlock : NodeOp :=
     whenD (fun n => n.dat D_SEQ == SEQ_BLOCK_ENCODE && act ≥ 2) (ixAppend0 S 1 ⨟ setData D_SEQ SEQ_BLOCK_INIT)
   -- (3) FINISH: Index encoder
   let finish : NodeOp :=
     if act == 3 then onSub1 (guard I_IENC ⨟ allocSelf S.indexEnc skip) ⨟ setData D_SEQ SEQ_INDEX else skip
-  (openBlock ⨟ closeBlock ⨟ finish) n
+  (openBlock ⨟ dirty ⨟ closeBlock ⨟ finish) n
 
 def streamDecoderInit : NodeOp :=
   guard I_SDEC ⨟ allocSelf S.streamDec skip ⨟ ensureBuf B_INDEX_HASH (some S.indexHash)
@@ -885,7 +909,8 @@ inductive Op where
   -- coding on the handle
   | encode (c : Chain) (act len : Nat)      -- c = the chain the stream encoder currently uses
   | decode (r : Recipe) (slot : Nat)        -- slot = where idec/fidec deliver the Index
-  | filtersUpdate (c : Chain)
+  | filtersUpdate (cur c : Chain)           -- cur = the chain the stream encoder currently uses
+  | badFlagsInit (which : Nat)              -- stream / lzip / auto decoder init with unsupported flags: LZMA_OPTIONS_ERROR
   | lzmaEnd
   -- lzma_index_* with an allocator
   | ixInit (s : Nat)
@@ -940,8 +965,13 @@ def runOp (w : World) : Op → M (Ret × World)
   | .decode r slot => do
     let res ← onRoot (decodeOp S r) w
     if res.1 == OK then pure (STREAM_END, takeIndex slot res.2) else pure res
-  | .filtersUpdate c =>
-    onRoot (fun n => if n.init == I_SENC then streamEncoderUpdate S c n else pure (PROG_ERROR, n)) w
+  | .filtersUpdate cur c =>
+    -- lzma_filters_update() validates the chain (lzma_raw_encoder_memusage) before calling the coder
+    if !chainValid c then pure (OPTIONS_ERROR, w) else
+    onRoot (fun n => if n.init == I_SENC then streamEncoderUpdate S cur c n else pure (PROG_ERROR, n)) w
+  | .badFlagsInit which =>
+    -- `lzma_next_coder_init(...)` comes first, then `if (flags & ~LZMA_SUPPORTED_FLAGS) return LZMA_OPTIONS_ERROR;`
+    strmInit S (guard (if which == 0 then I_SDEC else if which == 1 then I_LZIPDEC else I_AUTODEC) ⨟ failOp OPTIONS_ERROR) w
   | .lzmaEnd => do let w' ← lzmaEnd w; pure (OK, w')
   | .ixInit s =>
     if (getIx w.ix s).isSome || s ≥ w.ix.length then pure (PROG_ERROR, w) else do
